@@ -326,3 +326,75 @@ def expected_bits(patterns: list[int], spec: Spec) -> list[int]:
     if spec.bits < 8:
         return [wide_bits_of(p, spec) for p in patterns]
     return list(patterns)
+
+
+# ---- unrounded sources: float64 numbers that a single correct rounding turns into a given pattern ------
+# A narrow float element v (pattern p) is the image of every real number in its rounding interval
+# (midpoint with the lower neighbour, midpoint with the upper neighbour), the end points included when
+# p is even (IEEE round-to-nearest-even).  The candidates below sit just inside the ends of that
+# interval - `eps` (relative) away from the midpoint; eps = 0 means the adjacent float64 - or exactly on
+# an end point that ties to p.  They are built from the neighbouring *values* only (decoded by
+# numpy/ml_dtypes, which is exact), never by asking anyone to round.
+ROUNDING_EPS = [0.0, 2.0 ** -40, 2.0 ** -30, 2.0 ** -20, 2.0 ** -13]
+
+
+def component_spec(spec: Spec) -> Spec:
+    if spec.kind == "complex":
+        return SPECS["FLOAT" if spec.bits == 64 else "DOUBLE"]
+    return spec
+
+
+def component_patterns(patterns: list[int], spec: Spec) -> list[int]:
+    if spec.kind != "complex":
+        return list(patterns)
+    half = spec.bits // 2
+    mask = (1 << half) - 1
+    out = []
+    for p in patterns:
+        out += [p & mask, p >> half]
+    return out
+
+
+def unrounded_candidates(spec: Spec, patterns: list[int]) -> tuple[list[np.ndarray], np.ndarray]:
+    """For a real float type of <= 32 bits: ([one float64 array of sources per ROUNDING_EPS level], exact
+    values).  Element i of every level rounds (to nearest, ties to even) to patterns[i]."""
+    assert spec.kind == "float" and spec.bits <= 32, spec
+    bits = spec.bits
+    signed = spec.name != "FLOAT8E8M0"
+    magbits = bits - 1 if signed else bits
+    top = (1 << magbits) - 1
+    p = np.array(patterns, dtype=np.int64).reshape(-1)
+    sign = ((p >> magbits) & 1).astype(bool) if signed else np.zeros(p.shape, dtype=bool)
+    m = p & top
+
+    def val(marr):
+        raw = np.clip(marr, 0, top).astype(UINT_OF_BITS[max(bits, 8)])
+        with np.errstate(all="ignore"):
+            return raw.view(spec.np_dtype).astype(np.float64)
+
+    v = val(m)
+    lo = val(m - 1)
+    hi = val(m + 1)
+    has_lo = (m > 0) & np.isfinite(lo)
+    has_hi = (m < top) & np.isfinite(hi)
+    finite = np.isfinite(v)
+    even = (m % 2) == 0
+    with np.errstate(all="ignore"):
+        mid_lo = (v + lo) / 2
+        mid_hi = (v + hi) / 2
+    side = np.arange(len(p)) % 3
+    levels = []
+    for eps in ROUNDING_EPS:
+        with np.errstate(all="ignore"):
+            up = np.nextafter(mid_hi, 0.0) if eps == 0.0 else mid_hi * (1.0 - eps)
+            dn = np.nextafter(mid_lo, np.inf) if eps == 0.0 else mid_lo * (1.0 + eps)
+        tie = np.where(even, mid_hi, up)
+        x = np.where(side == 0, np.where(has_hi, up, dn), np.where(side == 1, np.where(has_lo, dn, up), np.where(has_hi, tie, dn)))
+        none = ~has_lo & ~has_hi
+        with np.errstate(all="ignore"):
+            ok_lo = ~has_lo | (x > mid_lo) | ((x == mid_lo) & even)
+            ok_hi = ~has_hi | (x < mid_hi) | ((x == mid_hi) & even)
+        inside = ok_lo & ok_hi & ~none & (x >= 0)
+        x = np.where(finite & inside, x, v)
+        levels.append(np.where(sign, -x, x))
+    return levels, np.where(sign, -v, v)
